@@ -75,3 +75,14 @@ package loop
 //@   ghost stays bool
 //@   call deriveTripCount$1 update stays = loop.Blocks[exitBlock.Succs[0]]
 //@   return-ensures [C12.polarity] iv != nil && !isNEQ && len(exitBlock.Succs) == 2 && binOp.X != binOp.Y ==> isUpCounting == (contLess(binOp.Op, stays) == (limit == binOp.Y))
+// The count itself: for a continue-comparison "iv < limit" with step s the body runs ceil((limit - start) / s) times,
+// built as max(0, ((limit - start) + s - 1) / s) (inclusive bound: max(0, ((limit - start) + s) / s)); the quotient
+// of the SCEV language truncates toward zero, so other textbook forms of the ceiling are wrong for non-positive
+// distances. Down-counting is the mirror image with |s| = s * -1.
+//@ pred gen(e SCEV, op token.Token, x SCEV, y SCEV) = hasType(e, "*SCEVGenericExpr") && dyn(e, "*SCEVGenericExpr").Op == op && dyn(e, "*SCEVGenericExpr").X == x && dyn(e, "*SCEVGenericExpr").Y == y
+//@ pred constN(e SCEV, n int) = hasType(e, "*SCEVConstant") && dyn(e, "*SCEVConstant").Value == purecall("math/big.NewInt", n)
+//@ pred clamp(e SCEV, z SCEV, q SCEV) = hasType(e, "*SCEVMax") && dyn(e, "*SCEVMax").X == z && dyn(e, "*SCEVMax").Y == q
+//@   return-ensures [C12.count] isUpCounting ==> clamp(loop.TripCount, zero, quotient) && gen(quotient, token.QUO, numer, iv.Step) && gen(iface(diff, "*SCEVGenericExpr"), token.SUB, limitSCEV, iv.Start)
+//@   return-ensures [C12.count] isUpCounting && isInclusive ==> gen(numer, token.ADD, iface(diff, "*SCEVGenericExpr"), iv.Step)
+//@   return-ensures [C12.count] isUpCounting && !isInclusive ==> hasType(numer, "*SCEVGenericExpr") && dyn(numer, "*SCEVGenericExpr").Op == token.SUB && gen(dyn(numer, "*SCEVGenericExpr").X, token.ADD, iface(diff, "*SCEVGenericExpr"), iv.Step) && constN(dyn(numer, "*SCEVGenericExpr").Y, 1)
+// (the down-counting branch ends in the function's final join, where its locals are out of scope: not under contract)
